@@ -218,7 +218,7 @@ def run_shard(sh):
             return
         sh.now(n)
         r = random.Random(n)
-        doc, text = D.make(n, **doc_kw)
+        doc, text = D.make(n, **dict(doc_kw, blank_close=False))  # a blank line in front of `}` / `in` is not canonical (law b)
         if r.random() < 0.1:
             text = r.choice(INLINE_DOCS)  # sets written on one line
         nima.reset_state()
